@@ -115,7 +115,7 @@ func genSched(tier string, seed uint64) {
 		}
 		nr := 300
 		if tier == "thorough" {
-			nr = 5000
+			nr = 15000
 		}
 		for i := 0; i < nr; i++ {
 			emit("sched %s %s %s %d", d.format, d.hex, schedStr(randSched(r, n)), r.intn(2))
@@ -165,7 +165,7 @@ func genSched(tier string, seed uint64) {
 	// random documents, random schedules
 	nd := 3000
 	if tier == "thorough" {
-		nd = 60000
+		nd = 200000
 	}
 	for i := 0; i < nd; i++ {
 		if r.chance(1, 2) {
@@ -191,7 +191,7 @@ func genRdOps(tier string, seed uint64) {
 	r := &rng{s: seed}
 	n := 20000
 	if tier == "thorough" {
-		n = 500000
+		n = 1500000
 	}
 	for i := 0; i < n; i++ {
 		dl := r.intn(12)
